@@ -314,6 +314,22 @@ func c15Profiles(tier Tier) []*explore.Profile {
 			if o.thorough {
 				acts = append(acts, accountMenu(w, o)...)
 			}
+			// the whole holding leaves through a transfer flagged return-after-error (a same-shard
+			// return executes the paying side with the flag set)
+			for _, from := range users(o) {
+				if h := held(w, from, tF); h > 0 {
+					for _, to := range [][]byte{uni.A0, uni.C1} {
+						if string(to) == string(from) {
+							continue
+						}
+						a := uni.ESDTTransfer(from, to, uni.F, h)
+						a.ReturnAfterError = true
+						m := uni.Multi(from, to, []uni.Ent{{Tok: uni.F, Nonce: 0, Q: h}})
+						m.ReturnAfterError = true
+						acts = append(acts, a, m)
+					}
+				}
+			}
 			return acts
 		},
 	}
@@ -328,7 +344,17 @@ func c15Profiles(tier Tier) []*explore.Profile {
 	if tier.Thorough() {
 		all.Depth = 3
 	}
-	return []*explore.Profile{p, all, highNonceProfile("high-nonce", tier, []explore.Oracle{&wellformedOracle{property: "C15"}}, 2)}
+	// the create / hand-over histories of C07's search under the well-formedness invariant (the
+	// counter clause needs hand-overs there and back with creations in between)
+	var handovers *explore.Profile
+	for _, q := range c07Profiles(tier) {
+		if q.Name == "nonce" {
+			handovers = q
+			handovers.Name = "create-and-hand-over"
+			handovers.Oracles = []explore.Oracle{&wellformedOracle{property: "C15"}}
+		}
+	}
+	return []*explore.Profile{p, all, handovers, highNonceProfile("high-nonce", tier, []explore.Oracle{&wellformedOracle{property: "C15"}}, 2)}
 }
 
 func init() { LedgerProfiles["C15"] = c15Profiles }
